@@ -13,6 +13,7 @@ import (
 
 	"google.golang.org/grpc/codes"
 	"google.golang.org/grpc/status"
+	"google.golang.org/protobuf/proto"
 
 	"github.com/ory/keto/internal/check"
 	"github.com/ory/keto/internal/driver/config"
@@ -45,6 +46,14 @@ type fuzzEnv struct {
 		DeleteRelationTuples(context.Context, *rts.DeleteRelationTuplesRequest) (*rts.DeleteRelationTuplesResponse, error)
 	}
 	syn *schema.Handler
+}
+
+// hfuzzBrokenNonASCII: a document with a lexical error outside any class body followed by a run of
+// multi-byte characters at a random byte offset (error excerpts that are cut by bytes split a rune).
+func hfuzzBrokenNonASCII(r interface{ Intn(int) int }) string {
+	tok := []string{"#", "@", "$", "`", "\\"}[r.Intn(5)]
+	ch := []string{"Д", "界", "😀", "é", "ß", "한"}[r.Intn(6)]
+	return strings.Repeat(" ", r.Intn(3)) + tok + strings.Repeat(" ", 1+r.Intn(4)) + strings.Repeat("x", r.Intn(4)) + strings.Repeat(ch, 6+r.Intn(40)) + "\nclass A implements Namespace {}\n"
 }
 
 func grpcClass(err error) string {
@@ -492,6 +501,9 @@ func (f *fuzzEnv) fire(r *rand.Rand, e, m string) (class string) {
 		case "invalid-utf8":
 			doc = "class A\xff implements Namespace {}"
 		}
+		if m != "empty-strings" && m != "huge-strings" && m != "invalid-utf8" && r.Intn(3) == 0 {
+			doc = hfuzzBrokenNonASCII(r)
+		}
 		return rest(f.syntax, method("POST"), schema.RouteBase, url.Values{}, []byte(doc), false)
 	case "g-check":
 		req := &rts.CheckRequest{Tuple: ptuple, MaxDepth: dint()}
@@ -572,7 +584,17 @@ func (f *fuzzEnv) fire(r *rand.Rand, e, m string) (class string) {
 		case "invalid-utf8":
 			doc = "class A\xff implements Namespace {}"
 		}
-		_, err := f.syn.Check(f.ctx, &opl.CheckRequest{Content: []byte(doc)})
+		if m != "empty-strings" && m != "huge-strings" && m != "invalid-utf8" && r.Intn(3) == 0 {
+			doc = hfuzzBrokenNonASCII(r)
+		}
+		resp, err := f.syn.Check(f.ctx, &opl.CheckRequest{Content: []byte(doc)})
+		if err == nil {
+			// what the gRPC server does next: the answer has to be a well-formed message (a string field
+			// that is not valid UTF-8 cannot be marshalled: the client would get Internal)
+			if _, merr := proto.Marshal(resp); merr != nil {
+				return grpcClass(status.Error(codes.Internal, merr.Error()))
+			}
+		}
 		return grpcClass(err)
 	}
 	return "unknown-endpoint"
